@@ -27,6 +27,12 @@ fn spec() -> CtxSpec {
             HostFn { kind: "hthis", name: "m0".into() },
             HostFn { kind: "hargs", name: "va".into() },
             HostFn { kind: "hfail1", name: "boom".into() },
+            // names that begin like the internal operator names ("_+_", "_[_]", ...)
+            HostFn { kind: "hv1", name: "_f1".into() },
+            HostFn { kind: "hv2", name: "_f2".into() },
+            HostFn { kind: "hv3", name: "_f3".into() },
+            HostFn { kind: "hthis_v", name: "_m1".into() },
+            HostFn { kind: "hv_this", name: "r1".into() },
         ],
     }
 }
@@ -58,7 +64,21 @@ impl<'a> G<'a> {
             return self.leaf();
         }
         let d = depth - 1;
-        let e = match self.rng.below(16) {
+        let e = match self.rng.below(19) {
+            16 => {
+                let f = *self.rng.pick(&["_f1", "_f2", "_f3"]);
+                let n = f.as_bytes()[2] - b'0';
+                let args: Vec<String> = (0..n).map(|_| self.expr(d)).collect();
+                format!("{}({})", f, args.join(", "))
+            }
+            17 => format!("({})._m1({})", self.expr(d), self.expr(d)),
+            18 => {
+                if self.rng.chance(1, 2) {
+                    format!("r1({}, {})", self.expr(d), self.expr(d))
+                } else {
+                    format!("({}).r1({})", self.expr(d), self.expr(d))
+                }
+            }
             0 => format!("({} + {})", self.expr(d), self.expr(d)),
             1 => format!("({} == {})", self.expr(d), self.expr(d)),
             2 => format!("({} && {})", self.expr(d), self.expr(d)),
@@ -100,7 +120,9 @@ pub fn run(em: &mut Emit, thorough: bool, seed: u64) {
               "tag(1, s).contains(tag(2, 'b'))", "f1(f1(f1(f1(tag(1, 1)))))", "boom(tag(1, 1))", "f2(boom(tag(1, 1)), tag(2, 2))",
               "tag(1, s).m2(tag(2, 1), tag(3, 2))", "f3(tag(1, 1), tag(2, 2))", "f1()", "f1(tag(1, 1), tag(2, 2))",
               "va(tag(1, 1), boom(tag(2, 2)), tag(3, 3))", "z0(tag(1, 1))", "[tag(1, 1), tag(2, 2)][tag(3, 0)]",
-              "{tag(1, 'k'): tag(2, 1)}[tag(3, 'k')]", "tag(1, l).map(x, tag(2, x))", "tag(1, l).filter(x, tag(2, x) > tag(3, 1))"] {
+              "{tag(1, 'k'): tag(2, 1)}[tag(3, 'k')]", "tag(1, l).map(x, tag(2, x))", "tag(1, l).filter(x, tag(2, x) > tag(3, 1))",
+              "_f2(tag(1, 1), tag(2, 2))", "_f1(tag(1, 1))", "_f3(tag(1, 1), tag(2, 2), tag(3, 3))", "tag(1, 1)._m1(tag(2, 2))",
+              "_f2(_f2(_f2(tag(1, 1), tag(2, 2)), tag(3, 3)), tag(4, 4))", "r1(tag(1, 1), tag(2, 2))", "tag(1, 1).r1(tag(2, 2))"] {
         emit_program(em, p, &sp, "nt=1;kind=corpus");
     }
     // nested chains: the log length is the depth (it was 2^depth)
